@@ -39,5 +39,14 @@ for id in "${ids[@]}"; do
             echo "FAIL  $id/$name: not detected (exit $rc)"; echo "$out" | tail -3; fail=1
         fi
     done
+    # behaviour-preserving refactorings: the check must stay silent
+    for p in selftest/$id/equivalent/*.diff; do
+        [ -e "$p" ] || continue
+        name=$(basename "$p" .diff)
+        if ! git -C /repo apply "$PWD/$p" 2>/dev/null; then echo "FAIL  $id/equivalent/$name: patch does not apply"; fail=1; continue; fi
+        out=$(./check "$id" "$tier" 2>&1); rc=$?
+        git -C /repo checkout -- .
+        if [ $rc -eq 0 ]; then echo "ok    $id/equivalent/$name: no alarm"; else echo "FAIL  $id/equivalent/$name: alarm on behaviour-preserving change (exit $rc)"; echo "$out" | tail -3; fail=1; fi
+    done
 done
 exit $fail
